@@ -17,7 +17,7 @@ RULE = ("1-4 languages (BCP-47-shaped codes), 1-5 sorted non-overlapping cues pe
         "divs with/without xml:lang, tt with/without xml:lang, read in-process and in pristine "
         "zygote children under several PYTHONHASHSEED values and under "
         "PYCAPTION_DEFAULT_LANG=zz; (sami-read) classes mapped by the stylesheet or a lang "
-        "attribute, reads repeated under several hash seeds; (write) sets -> DFXP (force), "
+        "attribute, reads repeated under several hash seeds; (write; also with one empty language, a style named like a language, force= in other case / prefix) sets -> DFXP (force), "
         "legacy/single DFXP, SAMI, WebVTT(lang) parsed independently; (lang-opt) lang= on the "
         "SRT / WebVTT / MicroDVD / SCC readers. Non-trivial: >= 2 languages with at least one "
         "pair of cues whose time order across languages differs from language order. "
@@ -271,15 +271,17 @@ def write_strategy(tier):
         return {"langs": langs, "writer": draw(st.sampled_from(["dfxp", "dfxp-legacy", "dfxp-single", "sami", "webvtt"])),
                 "pick": draw(st.sampled_from([None] + codes + ["xx"] + [c.lower() for c in codes] +
                                              [c.upper() for c in codes] + [c.split("-")[0] for c in codes])),
-                "prev": prev}
+                "prev": prev,
+                # names live in separate name spaces: a style may be called like a language
+                "style_named": draw(st.sampled_from([None, None, None] + codes + [c.lower() for c in codes]))}
     return build()
 
 
-def _to_set(langs):
+def _to_set(langs, styles=None):
     return {"langs": [{"code": l["code"], "layout": None,
                        "cues": [{"start": c["start"], "end": c["end"], "nodes": [{"t": c["text"]}],
                                  "style": {}, "layout": None} for c in l["cues"]]} for l in langs],
-            "styles": {}, "layout": None}
+            "styles": styles or {}, "layout": None}
 
 
 def check_write(case, rec):
@@ -287,7 +289,11 @@ def check_write(case, rec):
     codes = [l["code"] for l in langs]
     w = case["writer"]
     pick = case["pick"]
-    cs = model.to_pycaption(_to_set(langs))
+    styles = None
+    if case.get("style_named"):
+        styles = {case["style_named"]: {"color": "red"}}
+        rec.label("style-named-like-a-language")
+    cs = model.to_pycaption(_to_set(langs, styles))
     by = {l["code"]: l for l in langs}
     wcls = {"dfxp": DFXPWriter, "dfxp-legacy": LegacyDFXPWriter, "dfxp-single": SinglePositioningDFXPWriter,
             "sami": SAMIWriter, "webvtt": WebVTTWriter}[w]
@@ -344,6 +350,11 @@ def check_write(case, rec):
         require(starts == sorted(starts), lambda: f"sami: SYNC starts not in non-decreasing order: {starts}")
         for l in langs:
             cls_ = l["code"].lower()
+            # the class the paragraphs use must be bound to the language by the style sheet
+            rule = doc["classes"].get(cls_) or {}
+            require((rule.get("lang") or "").lower() == l["code"].lower(),
+                    lambda: f"sami: class .{cls_} is not declared with lang: {l['code']} in the style sheet "
+                            f"(rules {doc['classes']})")
             g = []
             for sy in doc["syncs"]:
                 for p in sy["ps"]:
